@@ -1,4 +1,5 @@
 import FatVerif.Proofs.FsInfoImg4
+import FatVerif.Proofs.FatImgZero5
 import FatVerif.Props.C03img
 import FatVerif.Props.C07run
 /-!
@@ -123,22 +124,85 @@ theorem unmount_fsinfo_img (d : Dev) (hs : Sess d)
     · omega
     · omega
 
-/-! ## (4) sessions -/
+/-! ## (4) `alloc_cluster(prev, zero)` end to end -/
+
+/-- **alloc_cluster_img.** `FileSystem::alloc_cluster(prev, zero)` — `zero = true` is the call that grows a directory —
+    on a session state (`Sess d`: fault-free device, well-formed image, layout, consistent bookkeeping), the volume marked
+    dirty or not, `prev` an allocated cluster of the table:
+
+    * if the table has no free entry the call fails with `NotEnoughSpace` and nothing at all changes (`SameStore`);
+    * otherwise it succeeds, returns the cluster `c` the search of the decoded table finds (`allocFindV`: first free
+      entry from the hint, wrapping once), and afterwards
+      - the session facts hold again; the mounted state is the old one, marked dirty, with the cached count decremented,
+        the hint `c + 1` (wrapped to 2 at the end of the table) and the FS-info dirty latch set;
+      - the decoded table is `allocLinkV g prev c` (`c := EOC`, then `prev := Data c`);
+      - `zero = true`: every byte of cluster `c` is zero;
+      - every byte from 0x42 on outside the FAT copies and — `zero = true` — outside cluster `c` is unchanged;
+      - if the volume was not marked dirty the status byte of the image now carries the dirty encoding;
+      - the write records: up to an intermediate device `d1` a sequence of mirrored FAT writes (`MirroredSeq`: each one
+        the same bytes at the same relative offset of every copy, copy 0 first) whose first new record is the status
+        record if the volume was not marked dirty and which contains no status record if it was; after `d1` nothing
+        (`zero = false`) or exactly the records tiling cluster `c` with zeros (`Pieces`, in device order). -/
+theorem alloc_cluster_img (d : Dev) (hs : Sess d) (prev : Option Nat) (zero : Bool)
+    (hp : ∀ p, prev = some p → 2 ≤ p ∧ p < d.fs.totalClusters + 2 ∧ tabView d.fs d.img p ≠ .free) :
+    ((∀ i, 2 ≤ i → i < d.fs.totalClusters + 2 → tabView d.fs d.img i ≠ .free) ∧
+      ∃ d', run (allocClusterFs prev zero) d = (.error .noSpace, d') ∧ SameStore d d') ∨
+    (∃ c d', allocFindV (tabView d.fs d.img) d.fs.fsInfo.next d.fs.totalClusters = some c ∧
+      2 ≤ c ∧ c < d.fs.totalClusters + 2 ∧ tabView d.fs d.img c = .free ∧
+      run (allocClusterFs prev zero) d = (.ok c, d') ∧ Sess d' ∧
+      d'.fs = { markedFs d.fs with fsInfo := ({ d.fs.fsInfo with
+        next := some (hintAfter d.fs.totalClusters c), dirty := true }).mapFree (· - 1) } ∧
+      tabView d'.fs d'.img = allocLinkV (tabView d.fs d.img) prev c ∧
+      (zero = true → ∀ q, clusterOff d.fs c ≤ q → q < clusterOff d.fs c + d.fs.clusterSize → d'.img.getByte q = 0) ∧
+      (∀ q, 0x42 ≤ q → OutsideFat d.fs q →
+        (zero = true → ¬ (clusterOff d.fs c ≤ q ∧ q < clusterOff d.fs c + d.fs.clusterSize)) →
+        d'.img.getByte q = d.img.getByte q) ∧
+      (d.fs.curDirty = false → d'.img.getByte (statusOff d.fs) = statusByte d.fs true) ∧
+      ∃ d1, MirroredSeq (fatSliceOf d.fs) d d1 ∧
+        (d.fs.curDirty = false → ∃ l, d1.writesOf = l ++ statusWrite d.fs true :: d.writesOf ∧
+          ∀ off b, LogItem.write off b ∈ l → (fatSliceOf d.fs).beginOff ≤ off) ∧
+        (d.fs.curDirty = true → ∃ l, d1.writesOf = l ++ d.writesOf ∧
+          ∀ off b, LogItem.write off b ∈ l → (fatSliceOf d.fs).beginOff ≤ off) ∧
+        (zero = false → d'.log = d1.log) ∧
+        (zero = true → ∃ items, d'.log = items.reverse ++ d1.log ∧
+          Pieces (clusterOff d.fs c) (List.replicate d.fs.clusterSize 0) items)) := by
+  rcases run_allocClusterFs_any prev zero d hs.nofault hs.wf hs.geo hs.info.ok hp with
+    ⟨hnone, dx, hx, hsame⟩ | ⟨c, d', hfind, hr, hst, hfs, htv, _, hz, hfr⟩
+  · exact Or.inl ⟨allocFindV_none _ _ _ hnone, dx, hx, hsame⟩
+  · right
+    obtain ⟨hc2, hct, hcf⟩ := allocFindV_some _ _ _ _ hs.info.ok.hint hfind
+    obtain ⟨hs', hcd', _⟩ := sess_alloc hs prev zero hp hr
+    have hg := hs.geo
+    have hdev : (fatSliceOf d.fs).beginOff + (fatSliceOf d.fs).mirrors * (fatSliceOf d.fs).size ≤ d.img.size := by
+      have h1 := hg.fat_data
+      have h2 := hg.data_dev
+      have h3 : d.fs.firstDataSector * d.fs.bps ≤ clusterOff d.fs (d.fs.totalClusters + 2) := by
+        unfold clusterOff; exact Nat.mul_le_mul_right _ (Nat.le_add_right _ _)
+      omega
+    obtain ⟨d1, hms, hcd1, hz0, hz1⟩ := allocClusterFs_log prev zero d hg.mirrors_pos hdev hr
+    refine ⟨c, d', hfind, hc2, hct, hcf, hr, hs', hfs, htv, hz, hfr,
+      fun hcl => allocClusterFs_status_byte prev zero d hs.wf hg hcl hr hcd', d1, hms, ?_, ?_, hz0, hz1⟩
+    · intro hcl
+      exact mirroredSeq_status_first hms (fatSliceOf_viaFs _) hcl (by rw [← hcd1]; exact hcd')
+    · intro hdirty
+      exact (mirroredSeq_of_dirty hms hdirty).2
+
+/-! ## (5) sessions -/
 
 /-- one FsState-level operation of a session, run successfully, under the conditions its callers in `file.rs`/`dir.rs`
-    establish: `alloc_cluster(prev)` with `prev` an allocated cluster of the table; `free_cluster_chain(n)` /
-    `truncate_cluster_chain(n)` on the duplicate-free chain of allocated clusters starting at `n`; `stats`. The
-    modifying operations run on a volume already marked dirty (`FsIoAdapter` marks it before the first modifying
-    write: Proofs/FileSimDirty). -/
+    establish: `alloc_cluster(prev, zero)` (`zero = true`: directory growth) with `prev` an allocated cluster of the
+    table; `free_cluster_chain(n)` / `truncate_cluster_chain(n)` on the duplicate-free chain of allocated clusters
+    starting at `n`; `stats`. The volume may or may not be marked dirty when a modifying operation starts
+    (`FsIoAdapter` marks it before the first modifying write). -/
 inductive Step : Dev → Dev → Prop
-  | alloc {d d' : Dev} (prev : Option Nat) (c : Nat) (hcd : d.fs.curDirty = true)
+  | alloc {d d' : Dev} (prev : Option Nat) (zero : Bool) (c : Nat)
       (hp : ∀ p, prev = some p → 2 ≤ p ∧ p < d.fs.totalClusters + 2 ∧ tabView d.fs d.img p ≠ .free)
-      (hr : run (allocClusterFs prev false) d = (.ok c, d')) : Step d d'
-  | free {d d' : Dev} (n : Nat) (cs : List Nat) (hcd : d.fs.curDirty = true)
+      (hr : run (allocClusterFs prev zero) d = (.ok c, d')) : Step d d'
+  | free {d d' : Dev} (n : Nat) (cs : List Nat)
       (hch : Chain (tabView d.fs d.img) n cs) (hnd : cs.Nodup)
       (hin : ∀ x ∈ cs, 2 ≤ x ∧ x < d.fs.totalClusters + 2 ∧ tabView d.fs d.img x ≠ .free)
       (hr : run (freeClusterChain n) d = (.ok (), d')) : Step d d'
-  | truncate {d d' : Dev} (cur : Nat) (t : List Nat) (hcd : d.fs.curDirty = true)
+  | truncate {d d' : Dev} (cur : Nat) (t : List Nat)
       (hch : Chain (tabView d.fs d.img) cur (cur :: t)) (hnd : (cur :: t).Nodup)
       (hin : ∀ x ∈ cur :: t, 2 ≤ x ∧ x < d.fs.totalClusters + 2 ∧ tabView d.fs d.img x ≠ .free)
       (hr : run (truncateClusterChain cur) d = (.ok (), d')) : Step d d'
@@ -151,12 +215,12 @@ inductive Reach : Dev → Dev → Prop
 
 theorem sess_step {d d' : Dev} (hs : Sess d) (h : Step d d') : Sess d' ∧ d'.fs.totalClusters = d.fs.totalClusters := by
   cases h with
-  | alloc prev c hcd hp hr =>
-    obtain ⟨h1, _, hg, _⟩ := sess_alloc hs hcd prev hp hr; exact ⟨h1, hg.totalClusters⟩
-  | free n cs hcd hch hnd hin hr =>
-    obtain ⟨h1, _, hg, _⟩ := sess_free hs hcd n cs hch hnd hin hr; exact ⟨h1, hg.totalClusters⟩
-  | truncate cur t hcd hch hnd hin hr =>
-    obtain ⟨h1, _, hg, _⟩ := sess_truncate hs hcd cur t hch hnd hin hr; exact ⟨h1, hg.totalClusters⟩
+  | alloc prev zero c hp hr =>
+    obtain ⟨h1, _, hg, _⟩ := sess_alloc hs prev zero hp hr; exact ⟨h1, hg.totalClusters⟩
+  | free n cs hch hnd hin hr =>
+    obtain ⟨h1, _, hg, _⟩ := sess_free hs n cs hch hnd hin hr; exact ⟨h1, hg.totalClusters⟩
+  | truncate cur t hch hnd hin hr =>
+    obtain ⟨h1, _, hg, _⟩ := sess_truncate hs cur t hch hnd hin hr; exact ⟨h1, hg.totalClusters⟩
   | stats a b n hr =>
     obtain ⟨h1, _, _, hg, _⟩ := sess_stats hs hr; exact ⟨h1, hg.totalClusters⟩
 
@@ -165,19 +229,29 @@ theorem sess_reach {d0 d : Dev} (hs : Sess d0) (h : Reach d0 d) : Sess d := by
   | refl => exact hs
   | step _ hst ih => exact (sess_step ih hst).1
 
+/-- a modifying step leaves the volume marked dirty; `stats` does not change the mark -/
+theorem dirty_step {d d' : Dev} (hs : Sess d) (h : Step d d') : d.fs.curDirty = true → d'.fs.curDirty = true := by
+  intro hcd
+  cases h with
+  | alloc prev zero c hp hr => exact (sess_alloc hs prev zero hp hr).2.1
+  | free n cs hch hnd hin hr => exact (sess_free hs n cs hch hnd hin hr).2.1
+  | truncate cur t hch hnd hin hr => exact (sess_truncate hs cur t hch hnd hin hr).2.1
+  | stats a b n hr =>
+    obtain ⟨_, _, _, _, h5, _⟩ := sess_stats hs hr; rw [h5]; exact hcd
+
 /-- the hint names a valid cluster -/
 def HintStrict (d : Dev) : Prop := ∀ h, d.fs.fsInfo.next = some h → 2 ≤ h ∧ h ≤ d.fs.totalClusters + 1
 
 theorem hintStrict_step {d d' : Dev} (hs : Sess d) (hh : HintStrict d) (h : Step d d') : HintStrict d' := by
   cases h with
-  | alloc prev c hcd hp hr =>
-    obtain ⟨_, _, _, _, _, _, x, hx, h1, h2⟩ := sess_alloc hs hcd prev hp hr
-    intro y hy; rw [hx] at hy; cases hy; exact ⟨h1, h2⟩
-  | free n cs hcd hch hnd hin hr =>
-    obtain ⟨_, _, hg, hn, _⟩ := sess_free hs hcd n cs hch hnd hin hr
+  | alloc prev zero c hp hr =>
+    obtain ⟨_, _, hg, _, _, _, hx, h1, h2, _⟩ := sess_alloc hs prev zero hp hr
+    intro y hy; rw [hx] at hy; cases hy; rw [hg.totalClusters]; exact ⟨h1, h2⟩
+  | free n cs hch hnd hin hr =>
+    obtain ⟨_, _, hg, hn, _⟩ := sess_free hs n cs hch hnd hin hr
     intro y hy; rw [hn] at hy; rw [hg.totalClusters]; exact hh y hy
-  | truncate cur t hcd hch hnd hin hr =>
-    obtain ⟨_, _, hg, hn, _⟩ := sess_truncate hs hcd cur t hch hnd hin hr
+  | truncate cur t hch hnd hin hr =>
+    obtain ⟨_, _, hg, hn, _⟩ := sess_truncate hs cur t hch hnd hin hr
     intro y hy; rw [hn] at hy; rw [hg.totalClusters]; exact hh y hy
   | stats a b n hr =>
     obtain ⟨_, _, _, hg, _, _, hn⟩ := sess_stats hs hr
@@ -189,8 +263,9 @@ theorem hintStrict_reach {d0 d : Dev} (hs : Sess d0) (hh : HintStrict d0) (h : R
   | step hr hst ih => exact hintStrict_step (sess_reach hs hr) ih hst
 
 /-- **session_free_count_exact.** From a mounted state with consistent bookkeeping (`Sess d0`: `InfoOk2`, which includes
-    "count unknown"), along ANY sequence of successful `alloc_cluster` / `free_cluster_chain` / `truncate_cluster_chain`
-    / `stats` operations (each invoked as its callers do):
+    "count unknown"; the volume marked dirty or not), along ANY sequence of successful `alloc_cluster(prev, zero)` —
+    file growth and directory growth — / `free_cluster_chain` / `truncate_cluster_chain` / `stats` operations (each
+    invoked as its callers do):
     * the session facts hold in every state reached;
     * every `stats` answer there is the number of free entries of the image's table AT THAT MOMENT;
     * a final successful `unmount` of a FAT32 volume with dirty FS-info leaves an FS-info sector that deserialises to the
@@ -220,12 +295,13 @@ theorem session_free_count_exact {d0 d : Dev} (hs0 : Sess d0) (hreach : Reach d0
 
 /-- … and if at least one `alloc_cluster` happened in the session, the hint written names a valid cluster,
     `2 ≤ h ≤ total+1` (F13 repaired) -/
-theorem session_hint_exact {d0 d1 d : Dev} (hs0 : Sess d0) (prev : Option Nat) (c : Nat) (hcd : d0.fs.curDirty = true)
+theorem session_hint_exact {d0 d1 d : Dev} (hs0 : Sess d0) (prev : Option Nat) (zero : Bool) (c : Nat)
     (hp : ∀ p, prev = some p → 2 ≤ p ∧ p < d0.fs.totalClusters + 2 ∧ tabView d0.fs d0.img p ≠ .free)
-    (hr : run (allocClusterFs prev false) d0 = (.ok c, d1)) (hreach : Reach d1 d) :
+    (hr : run (allocClusterFs prev zero) d0 = (.ok c, d1)) (hreach : Reach d1 d) :
     HintStrict d ∧ d.fs.fsInfo.next.isSome = true := by
-  obtain ⟨hs1, _, _, _, _, _, x, hx, h1, h2⟩ := sess_alloc hs0 hcd prev hp hr
-  have hh1 : HintStrict d1 := by intro y hy; rw [hx] at hy; cases hy; exact ⟨h1, h2⟩
+  obtain ⟨hs1, _, hg, _, _, _, hx, h1, h2, _⟩ := sess_alloc hs0 prev zero hp hr
+  have hh1 : HintStrict d1 := by
+    intro y hy; rw [hx] at hy; cases hy; rw [hg.totalClusters]; exact ⟨h1, h2⟩
   refine ⟨hintStrict_reach hs1 hh1 hreach, ?_⟩
   have hsome1 : d1.fs.fsInfo.next.isSome = true := by rw [hx]; rfl
   clear hx hh1 h1 h2
@@ -234,12 +310,12 @@ theorem session_hint_exact {d0 d1 d : Dev} (hs0 : Sess d0) (prev : Option Nat) (
   | step hr' hst ih =>
     have hsb := sess_reach hs1 hr'
     cases hst with
-    | alloc prev c hcd hp hr2 =>
-      obtain ⟨_, _, _, _, _, _, x, hx, _⟩ := sess_alloc hsb hcd prev hp hr2; rw [hx]; rfl
-    | free n cs hcd hch hnd hin hr2 =>
-      obtain ⟨_, _, _, hn, _⟩ := sess_free hsb hcd n cs hch hnd hin hr2; rw [hn]; exact ih
-    | truncate cur t hcd hch hnd hin hr2 =>
-      obtain ⟨_, _, _, hn, _⟩ := sess_truncate hsb hcd cur t hch hnd hin hr2; rw [hn]; exact ih
+    | alloc prev zero c hp hr2 =>
+      obtain ⟨_, _, _, _, _, _, hx, _⟩ := sess_alloc hsb prev zero hp hr2; rw [hx]; rfl
+    | free n cs hch hnd hin hr2 =>
+      obtain ⟨_, _, _, hn, _⟩ := sess_free hsb n cs hch hnd hin hr2; rw [hn]; exact ih
+    | truncate cur t hch hnd hin hr2 =>
+      obtain ⟨_, _, _, hn, _⟩ := sess_truncate hsb cur t hch hnd hin hr2; rw [hn]; exact ih
     | stats a b n hr2 =>
       obtain ⟨_, _, _, _, _, _, hn⟩ := sess_stats hsb hr2; rw [hn]; exact ih
 
@@ -249,7 +325,7 @@ namespace Ex
 
 /-- a FAT32 miniature (kept tiny so that the kernel can evaluate runs): 64-byte sectors, two reserved sectors, two
     mirrored FAT copies of one sector (16 entries) at bytes 128 and 192, 6 data clusters from byte 256, the FS-info
-    sector at byte 1024, a 2 KiB device; already marked dirty, nothing cached -/
+    sector at byte 1024, a 2 KiB device; already marked dirty (`devZ` below: not marked), nothing cached -/
 def fs32 : FsState :=
   { fatType := .fat32, bps := 64, spc := 1, reserved := 2, fats := 2, spf := 1, totalClusters := 6,
     firstDataSector := 4, fsInfoSector := 16, curDirty := true, bpbDirty := false }
@@ -284,6 +360,56 @@ theorem geo32 : Geo fs32 dev.img.size :=
 theorem sess32 : Sess dev :=
   ⟨rfl, Img.wf_write _ (Img.wf_write _ (Img.wf_empty _) _ _) _ _, geo32,
    ⟨⟨fun n h => (by cases h), fun n h => (by cases h)⟩, fun n h => (by cases h)⟩⟩
+
+/-- directory growth on a volume NOT yet marked dirty: cluster 4 (bytes 384 … 447) holds stale data -/
+def devZ : Dev :=
+  { img := img0.write 384 (List.replicate 64 0xAA), fs := { fs32 with curDirty := false } }
+
+theorem geoZ : Geo devZ.fs devZ.img.size :=
+  ⟨by decide, by decide, by decide, fun c hc => by simp only [devZ, fs32, entOff, entWidth, fatSliceOf] at *; simp; omega,
+   by decide, by decide, by decide, by decide, by decide, by decide, by decide⟩
+
+theorem sessZ : Sess devZ :=
+  ⟨rfl, Img.wf_write _ (Img.wf_write _ (Img.wf_write _ (Img.wf_empty _) _ _) _ _) _ _, geoZ,
+   ⟨⟨fun n h => (by cases h), fun n h => (by cases h)⟩, fun n h => (by cases h)⟩⟩
+
+/-- `alloc_cluster(None, zero = true)` there takes cluster 4, marks the volume, sets the status byte (0x41) to "dirty",
+    zeroes the 64 bytes of cluster 4 and leaves the neighbouring cluster alone; the records, oldest first: the status
+    byte, the FAT entry in copy 0, the same in copy 1, the 64 zeros -/
+example : (run (allocClusterFs none true) devZ).1 = .ok 4 ∧
+    (run (allocClusterFs none true) devZ).2.fs.curDirty = true ∧
+    (run (allocClusterFs none true) devZ).2.fs.fsInfo = ⟨none, some 5, true⟩ ∧
+    devZ.img.getByte 0x41 = 0 ∧ (run (allocClusterFs none true) devZ).2.img.getByte 0x41 = 1 ∧
+    (List.range 64).all (fun i => devZ.img.getByte (384 + i) == 0xAA) = true ∧
+    (List.range 64).all (fun i => (run (allocClusterFs none true) devZ).2.img.getByte (384 + i) == 0) = true ∧
+    (run (allocClusterFs none true) devZ).2.log.reverse =
+      [.write 0x41 [1], .write 144 [0xFF, 0xFF, 0xFF, 0x0F], .write 208 [0xFF, 0xFF, 0xFF, 0x0F],
+       .write 384 (List.replicate 64 0)] := by decide +kernel
+
+/-- … and this is a `Step` of a session from `devZ` (`session_free_count_exact` applies to what follows) -/
+example : Reach devZ (run (allocClusterFs none true) devZ).2 :=
+  .step (.refl _) (.alloc none true 4 (fun p h => (by cases h))
+    (Prod.ext (show (run (allocClusterFs none true) devZ).1 = .ok 4 by decide +kernel) rfl))
+
+/-- `free_cluster_chain(2)` (chain 2→3) and `truncate_cluster_chain(5)` (chain 5→7) on the volume not marked dirty: both
+    succeed, mark the volume — status record first —, and the free-entry count of the image goes from 2 to 4 resp. 3 -/
+example : (run (freeClusterChain 2) devZ).1 = .ok () ∧ (run (freeClusterChain 2) devZ).2.fs.curDirty = true ∧
+    countFreeV (imgTable fs32 devZ.img) 6 = 2 ∧
+    countFreeV (imgTable fs32 (run (freeClusterChain 2) devZ).2.img) 6 = 4 ∧
+    (run (freeClusterChain 2) devZ).2.log.reverse.head? = some (.write 0x41 [1]) ∧
+    (run (truncateClusterChain 5) devZ).1 = .ok () ∧ (run (truncateClusterChain 5) devZ).2.fs.curDirty = true ∧
+    countFreeV (imgTable fs32 (run (truncateClusterChain 5) devZ).2.img) 6 = 3 ∧
+    (run (truncateClusterChain 5) devZ).2.log.reverse.head? = some (.write 0x41 [1]) := by decide +kernel
+
+/-- a full table -/
+def devFull : Dev :=
+  { img := ((Img.empty 2048).write 128 (List.replicate 32 0xFF)).write 192 (List.replicate 32 0xFF),
+    fs := { fs32 with curDirty := false } }
+
+/-- … `alloc_cluster` answers `NotEnoughSpace`, writes nothing and does not mark the volume -/
+example : (run (allocClusterFs none true) devFull).1 = .error .noSpace ∧
+    (run (allocClusterFs none true) devFull).2.log = [] ∧
+    (run (allocClusterFs none true) devFull).2.fs.curDirty = false := by decide +kernel
 
 example : statusOff fs32 + 1 ≤ fs32.fsInfoSector * fs32.bps ∧
     (fatSliceOf fs32).beginOff + (fatSliceOf fs32).size ≤ fs32.fsInfoSector * fs32.bps := by decide
